@@ -3,6 +3,7 @@ package sim
 import (
 	"encoding/json"
 	"fmt"
+	"strings"
 	"time"
 
 	"pgregory.net/rapid"
@@ -31,11 +32,15 @@ func genRetry(t *rapid.T) *RetrySpec {
 	return &RetrySpec{Max: rapid.IntRange(1, 4).Draw(t, "max"), Base: base, Cap: capv, Jitter: rapid.SampledFrom([]float64{0, 0.2, 0.5, 1}).Draw(t, "jitter")}
 }
 
-func genScript(t *rapid.T, timeout time.Duration, egress bool) []NetAction {
+func genScript(t *rapid.T, timeout time.Duration, egress bool, host string) []NetAction {
 	n := rapid.IntRange(1, 5).Draw(t, "script_len")
 	var out []NetAction
 	for i := 0; i < n; i++ {
-		switch k := rapid.IntRange(0, 13).Draw(t, "act"); {
+		k := rapid.IntRange(0, 13).Draw(t, "act")
+		if egress && i == 0 && rapid.IntRange(0, 3).Draw(t, "redir_first") == 0 {
+			k = 12 // redirects matter most as the first answer of a target
+		}
+		switch {
 		case k < 8:
 			out = append(out, NetAction{Kind: "status", Status: rapid.SampledFrom(biasedStatuses).Draw(t, "status")})
 		case k == 8:
@@ -48,7 +53,8 @@ func genScript(t *rapid.T, timeout time.Duration, egress bool) []NetAction {
 			out = append(out, NetAction{Kind: "hang", Delay: timeout})
 		case k == 12 && egress:
 			out = append(out, NetAction{Kind: "redirect", Status: rapid.SampledFrom([]int{301, 302, 307, 308}).Draw(t, "rstatus"),
-				Location: rapid.SampledFrom([]string{"https://t9.example/next", "/relative", "http://t9.example/plain", "https://10.0.0.5/internal", "https://evil.example/x", "https://internal.corp/x", "ftp://t9.example/f"}).Draw(t, "location")})
+				Location: rapid.SampledFrom([]string{"https://t9.example/next", "/relative", "/relative", "http://" + host + "/plain", "https://" + host + "/again", "HTTPS://" + strings.ToUpper(host) + "/upper",
+					"http://t9.example/plain", "https://10.0.0.5/internal", "https://evil.example/x", "https://internal.corp/x", "ftp://t9.example/f"}).Draw(t, "location")})
 		default:
 			out = append(out, NetAction{Kind: "status", Status: 200})
 		}
@@ -88,8 +94,8 @@ func GenDispatchProgram(t *rapid.T, prof DispatchProfile) *Program {
 		if rapid.Bool().Draw(t, "https_only?") {
 			e.HTTPSOnly = boolp(rapid.Bool().Draw(t, "https_only"))
 		}
-		if rapid.Bool().Draw(t, "redirects?") {
-			e.Redirects = boolp(rapid.Bool().Draw(t, "redirects"))
+		if rapid.IntRange(0, 3).Draw(t, "redirects?") != 0 {
+			e.Redirects = boolp(rapid.IntRange(0, 3).Draw(t, "redirects") != 0)
 		}
 		if rapid.Bool().Draw(t, "rebind?") {
 			e.Rebind = boolp(rapid.Bool().Draw(t, "rebind"))
@@ -113,7 +119,11 @@ func GenDispatchProgram(t *rapid.T, prof DispatchProfile) *Program {
 		spec.Egress = e
 		sys.DNS = map[string][][]string{}
 		for _, h := range []string{"t0.example", "t1.example", "t9.example", "internal.corp", "evil.example", "allowed.example", "sub.allowed.example"} {
-			switch rapid.IntRange(0, 7).Draw(t, "dns."+h) {
+			switch rapid.IntRange(0, 9).Draw(t, "dns."+h) {
+			case 6:
+				sys.DNS[h] = [][]string{{"93.184.216.34"}, {"169.254.169.254"}}
+			case 7:
+				sys.DNS[h] = [][]string{{"93.184.216.34"}, {"93.184.216.34"}, {"10.0.0.9"}}
 			case 0:
 				sys.DNS[h] = [][]string{{"10.0.0.7"}}
 			case 1:
@@ -174,7 +184,7 @@ func GenDispatchProgram(t *rapid.T, prof DispatchProfile) *Program {
 	}
 	for _, h := range []string{"t0.example", "t1.example", "t2.example", "t9.example", "t1.example:8443", "203.0.113.10", "10.1.2.3", "127.0.0.1", "[::1]", "internal.corp", "evil.example", "allowed.example", "sub.allowed.example", "10.0.0.5", "169.254.169.254", "[::ffff:10.0.0.1]"} {
 		if rapid.IntRange(0, 2).Draw(t, "script?") != 0 || h == "t0.example" {
-			sys.Scripts[h] = genScript(t, timeout, prof.Egress)
+			sys.Scripts[h] = genScript(t, timeout, prof.Egress, h)
 		} else {
 			sys.Scripts[h] = []NetAction{{Kind: "status", Status: 200}}
 		}
